@@ -141,8 +141,9 @@ def parseColor (toks : List Tok) : Except Err (List Tok) :=
   | [] => .error .eof
   | _ => .error .tokenType
 
-/-- `_parse_subtree(root)` — one `while` iteration per call; `_parse_split` is the recursive call followed by
-the closing bracket.  `root`/`cur` are row ids (`-1` = the TREE node). -/
+/-- `_parse_subtree(root, flag)` — one `while` iteration per call; `_parse_split` is the recursive call followed by
+the closing bracket.  `flag = false` ⇔ an opening bracket has been consumed that still has to turn out to open
+a point, a marker or a split.  `root`/`cur` are row ids (`-1` = the TREE node). -/
 def parseSubtree (ty : Int) : Nat → List Tok → Bool → Int → Int → List Row → Except Err (List Tok × List Row)
   | 0, _, _, _, _, _ => .error .fuel
   | f+1, toks, flag, root, cur, rows =>
@@ -152,7 +153,8 @@ def parseSubtree (ty : Int) : Nat → List Tok → Bool → Int → Int → List
       let t1 ← adv toks
       if flag then parseSubtree ty f t1 false root cur rows
       else do
-        let r ← parseSubtree ty f t1 true cur cur rows
+        -- `( (`: `_parse_split(current, flag=False)` — the second bracket is the pending one of the first point
+        let r ← parseSubtree ty f t1 false cur cur rows
         let t2 ← expectRp r.1
         parseSubtree ty f t2 true root cur r.2
     | .rp :: _ =>
@@ -160,7 +162,9 @@ def parseSubtree (ty : Int) : Nat → List Tok → Bool → Int → Int → List
       else do
         let t1 ← adv toks
         parseSubtree ty f t1 true root cur rows
-    | .float _ :: _ => do
+    | .float _ :: _ =>
+      if flag then .error .tokenType          -- a point without its opening bracket
+      else do
       let nr ← parseNode toks
       let (x, y, z, r) := nr.1
       parseSubtree ty f nr.2 true root (rows.length : Int) (rows ++ [⟨ty, x, y, z, r, cur⟩])
@@ -213,7 +217,7 @@ def parseTop : Nat → List Tok → List Row → Except Err (List Tok × List Ro
           let t4 ← skipComments f t3
           let t5 ← expectLp t4
           let ty : Int := if u = "AXON".toList then Gen.Consts.type_axon else Gen.Consts.type_basal_dendrite
-          let r ← parseSubtree ty f t5 true (-1) (-1) rows
+          let r ← parseSubtree ty f t5 false (-1) (-1) rows      -- `t3` opened the first point
           parseTop f r.1 r.2
         else if u = "COLOR".toList then do
           let t2 ← parseColor t1
